@@ -21,6 +21,7 @@ import (
 	"verif/keys"
 	"verif/ref/der"
 	"verif/ref/refp7"
+	"verif/weakeq"
 )
 
 // p7Seed is one valid SignedData with the certificates to verify it against.
@@ -99,7 +100,7 @@ type namedBytes struct {
 func p7LibSeeds() []p7Seed {
 	var seeds []p7Seed
 	content := []byte("detached content signed by the library")
-	for _, kn := range []int{1, 4} {
+	for _, kn := range []int{1, 4, 7} {
 		b, err := pkcs7.SignPKCS7(keys.K(kn), keys.C(kn), pkcs7.OIDData, content)
 		if err != nil {
 			panic(err)
@@ -201,6 +202,9 @@ func p7FixtureSeeds() []p7Seed {
 type p7Edit struct {
 	Name string
 	Blob []byte
+	// RobustOnly: a BER form that a tolerant decoder may legitimately read as the valid original;
+	// used for termination/robustness (C13) only, never judged for acceptance.
+	RobustOnly bool
 }
 
 // signAttrs signs the DER SET encoding of an attribute node with k.
@@ -281,7 +285,7 @@ func p7Edits(s p7Seed) []p7Edit {
 			return
 		}
 		if f(t) {
-			out = append(out, p7Edit{name, t.root.Encode()})
+			out = append(out, p7Edit{Name: name, Blob: t.root.Encode()})
 		}
 	}
 	t0, err := p7Open(s.Blob)
@@ -290,7 +294,7 @@ func p7Edits(s p7Seed) []p7Edit {
 	}
 	// identity re-encoding must reproduce the blob (the seeds are DER)
 	if !bytes.Equal(t0.root.Encode(), s.Blob) {
-		out = append(out, p7Edit{"reencoded (seed was not minimal DER)", t0.root.Encode()})
+		out = append(out, p7Edit{Name: "reencoded (seed was not minimal DER)", Blob: t0.root.Encode()})
 	}
 	nattr := 0
 	if t0.attrs != nil {
@@ -524,6 +528,25 @@ func p7Edits(s p7Seed) []p7Edit {
 			t.si.Children[t.sigIdx].Val = signAttrs(s.Key, t.attrs)
 			return true
 		})
+		// a comparison that is weaker than equality (checksums, folds, prefixes) takes these for the digest
+		if t0.attrs != nil {
+			for _, a := range t0.attrs.Children {
+				if len(a.Children) == 2 && bytes.Equal(a.Children[0].Val, refp7.OIDMessageDigest) && len(a.Children[1].Children) == 1 {
+					for _, tw := range weakeq.Twins(a.Children[1].Children[0].Val) {
+						tw := tw
+						add("right key signs attributes whose messageDigest is another value with "+tw.Name+" (content unchanged)", func(t *p7Tree) bool {
+							for _, a := range t.attrs.Children {
+								if len(a.Children) == 2 && bytes.Equal(a.Children[0].Val, refp7.OIDMessageDigest) {
+									a.Children[1].Children[0].Val = append([]byte{}, tw.Value...)
+								}
+							}
+							t.si.Children[t.sigIdx].Val = signAttrs(s.Key, t.attrs)
+							return true
+						})
+					}
+				}
+			}
+		}
 		add("right key signs permuted attributes", func(t *p7Tree) bool {
 			if t.attrs == nil || len(t.attrs.Children) < 2 {
 				return false
@@ -746,7 +769,136 @@ func p7Edits(s p7Seed) []p7Edit {
 			t, _ := p7Open(s.Blob)
 			enc := t.attrs.Encode()
 			nm := append([]byte{enc[0], 0x81, enc[1]}, enc[2:]...)
-			out = append(out, p7Edit{"non-minimal length on the signed attributes", spliceRaw(t, nm)})
+			out = append(out, p7Edit{Name: "non-minimal length on the signed attributes", Blob: spliceRaw(t, nm)})
+		}
+	}
+
+	// ---- forgeries that need no private key (round 8) ----
+	// (a) RSA e=3: cube roots that a block-parsing verifier accepts
+	if pub, ok := s.Signer.PublicKey.(*rsa.PublicKey); ok && pub.E == 3 && t0.attrs != nil {
+		set := append([]byte{}, t0.attrs.Bytes()...)
+		set[0] = 0x31
+		h := sha256.Sum256(set)
+		for _, f := range keys.ForgeE3(pub, h[:]) {
+			f := f
+			add("encryptedDigest replaced, without the private key, by a "+f.Name, func(t *p7Tree) bool {
+				t.si.Children[t.sigIdx].Val = f.Sig
+				return true
+			})
+		}
+		// a changed messageDigest with a forged signature over the changed attributes; an extra signed
+		// attribute is varied until the attribute digest is odd (the digest-at-the-end forgery needs that)
+		for ctr := 0; ctr < 64; ctr++ {
+			t, _ := p7Open(s.Blob)
+			for _, a := range t.attrs.Children {
+				if len(a.Children) == 2 && bytes.Equal(a.Children[0].Val, refp7.OIDMessageDigest) {
+					a.Children[1].Children[0].Val[0] ^= 0xff
+				}
+			}
+			t.attrs.Children = append(t.attrs.Children, der.Cons(0x30, der.Prim(0x06, der.OID(1, 3, 6, 1, 4, 1, 99999, 8, 1)), der.Cons(0x31, der.Prim(0x02, []byte{byte(ctr)}))))
+			set := append([]byte{}, t.attrs.Encode()...)
+			set[0] = 0x31
+			h := sha256.Sum256(set)
+			if h[31]&1 == 0 {
+				continue
+			}
+			for _, f := range keys.ForgeE3(pub, h[:]) {
+				t.si.Children[t.sigIdx].Val = f.Sig
+				out = append(out, p7Edit{Name: "messageDigest changed; encryptedDigest made, without the private key, by a " + f.Name, Blob: t.root.Encode()})
+			}
+			break
+		}
+	}
+	// (b) chain confusion: a certificate of another key that merely CLAIMS the verifying certificate as issuer
+	{
+		k3 := keys.K(3)
+		tmpl := &x509.Certificate{SerialNumber: big.NewInt(0x7777), Subject: pkix.Name{CommonName: "claims to be issued by the verifying certificate"},
+			NotBefore: keys.NotBefore, NotAfter: keys.NotAfter, SignatureAlgorithm: x509.SHA256WithRSA, KeyUsage: x509.KeyUsageDigitalSignature,
+			ExtKeyUsage: []x509.ExtKeyUsage{x509.ExtKeyUsageCodeSigning}, BasicConstraintsValid: true, AuthorityKeyId: s.Signer.SubjectKeyId}
+		parent := &x509.Certificate{RawSubject: s.Signer.RawSubject, Subject: s.Signer.Subject, SubjectKeyId: s.Signer.SubjectKeyId}
+		if cd, err := x509.CreateCertificate(rand.Reader, tmpl, parent, &k3.PublicKey, k3); err == nil {
+			child, _ := x509.ParseCertificate(cd)
+			chIssuer, _ := der.Parse(child.RawIssuer)
+			chNode, _ := der.Parse(child.Raw)
+			add("signed by another key whose embedded certificate names the verifying certificate as its issuer (not signed by it)", func(t *p7Tree) bool {
+				if t.attrs == nil || t.certs == nil || chIssuer == nil || chNode == nil {
+					return false
+				}
+				t.certs.Children = append([]*der.Node{chNode.Clone()}, t.certs.Children...)
+				t.si.Children[1].Children[0] = chIssuer.Clone()
+				t.si.Children[1].Children[1].Val = serialBytes(child.SerialNumber)
+				t.si.Children[t.sigIdx].Val = signAttrs(k3, t.attrs)
+				return true
+			})
+		}
+	}
+	// (c) signed attributes / content confusion: what the key signed was the attribute SET; offer those
+	// very bytes as the content of an attribute-less signer
+	if t0.attrs != nil {
+		for _, wrap := range []string{"directly", "inside an OCTET STRING"} {
+			wrap := wrap
+			add("signed attributes dropped and their SET encoding (what the signature covers) placed "+wrap+" as the encapsulated content", func(t *p7Tree) bool {
+				set := append([]byte{}, t.attrs.Bytes()...)
+				set[0] = 0x31
+				inner, err := der.Parse(set)
+				if err != nil {
+					return false
+				}
+				var kids []*der.Node
+				for _, ch := range t.si.Children {
+					if ch != t.attrs {
+						kids = append(kids, ch)
+					}
+				}
+				t.si.Children = kids
+				payload := inner.Clone()
+				if wrap != "directly" {
+					payload = der.Prim(0x04, set)
+				}
+				t.ci.Children = []*der.Node{t.ci.Children[0], der.Cons(0xa0, payload)}
+				return true
+			})
+		}
+	}
+	// (d) BER constructed OCTET STRING content (tag 0x24): well-formed and malformed segments
+	{
+		orig := []byte("content that was never signed")
+		if len(t0.ci.Children) > 1 && len(t0.ci.Children[1].Children) == 1 && t0.ci.Children[1].Children[0].Tag == 0x04 {
+			orig = t0.ci.Children[1].Children[0].Val
+		}
+		half := len(orig) / 2
+		type seg struct {
+			name string
+			raw  []byte
+			ro   bool
+		}
+		segs := []seg{
+			{"two well-formed segments", append(der.Prim(0x04, orig[:half]).Encode(), der.Prim(0x04, orig[half:]).Encode()...), true},
+			{"a segment whose length runs past the end of the string", append(der.Prim(0x04, orig[:half]).Encode(), 0x04, 0x7f, 0x01, 0x02), false},
+			{"an INTEGER where a segment should be", append(der.Prim(0x04, orig[:half]).Encode(), 0x02, 0x01, 0x05), false},
+			{"one stray octet after the segments", append(der.Prim(0x04, orig).Encode(), 0x04), false},
+			{"no segments", nil, false},
+			{"a nested constructed segment", append([]byte{0x24, byte(2 + half)}, der.Prim(0x04, orig[:half]).Encode()...), false},
+			{"an indefinite-length segment without end-of-contents", append([]byte{0x24, 0x80}, der.Prim(0x04, orig[:half]).Encode()...), false},
+		}
+		for _, sg := range segs {
+			sg := sg
+			if len(sg.raw) > 120 || half > 100 {
+				continue
+			}
+			t, err := p7Open(s.Blob)
+			if err != nil {
+				continue
+			}
+			// a primitive marker of the same length stands in the tree; its tag byte is then made 0x24
+			marker := der.Prim(0x04, sg.raw)
+			t.ci.Children = []*der.Node{t.ci.Children[0], der.Cons(0xa0, marker)}
+			enc := t.root.Encode()
+			menc := marker.Encode()
+			if i := bytes.Index(enc, menc); i >= 0 && bytes.Count(enc, menc) == 1 {
+				enc[i] = 0x24
+				out = append(out, p7Edit{Name: "encapsulated content replaced by a constructed OCTET STRING (BER, tag 0x24) with " + sg.name, Blob: enc, RobustOnly: sg.ro})
+			}
 		}
 	}
 	return out
